@@ -237,6 +237,9 @@ def decodeBuf (buf : Bytes) : Except Err (Ptr × Bool) :=
   | .error e => .error e
   | .ok p => .ok (p, enc p == buf)
 
-def dec (b : Bytes) : Except Err (Ptr × Bool) := decodeBuf (b.take cut)
+/-- `lfs.DecodePointer` on a whole byte string (after the D1/D16 repairs: the window is read in
+full, and a stream of `cut` bytes or more is never a pointer). -/
+def dec (b : Bytes) : Except Err (Ptr × Bool) :=
+  if cut ≤ b.length then .error .notPtr else decodeBuf b
 
 end Lfs
